@@ -53,7 +53,7 @@ func runC09(c *Ctx) {
 	for _, cs := range callsIn(span, "time.Date") {
 		dates = append(dates, cs.(*ssa.Call))
 	}
-	r.Check("C09.span-shape", "counterSpan/two time.Date constructions", m.Pos(span.Pos()), len(dates) == 2, fmt.Sprintf("%d", len(dates)))
+	nBeginForm, nEndForm := 0, 0
 	var incr ssa.Value
 	var weekendV, weekdayV ssa.Value
 	for i, d := range dates {
@@ -71,15 +71,21 @@ func runC09(c *Ctx) {
 		isBegin := dd == "(time.Time).Date(var:internal/counter.CounterTime())#2"
 		r.Check("C09.span-shape", fmt.Sprintf("counterSpan/time.Date #%d is midnight UTC of CounterTime's date", i+1), m.Pos(d.Pos()), zeros && utc && yOK && mOK,
 			fmt.Sprintf("hour..nsec constants zero: %v; location %s; year %s; month %s", zeros, describe(a[7]), describe(a[0]), describe(a[1])))
+		if isBegin {
+			nBeginForm++
+		}
 		if !isBegin {
 			// day + incr
 			if bo, ok := strip(a[2]).(*ssa.BinOp); ok && describe(bo.X) == "(time.Time).Date(var:internal/counter.CounterTime())#2" {
 				incr = bo.Y
+				nEndForm++
 			} else {
 				r.Check("C09.span-shape", "counterSpan/end day is day + incr", m.Pos(d.Pos()), false, "got "+dd)
 			}
 		}
 	}
+	// (begin may be constructed more than once — the weekday is taken from it — but there is one end)
+	r.Check("C09.span-shape", "counterSpan/time.Date constructions are begin (today) and one end (today + incr)", m.Pos(span.Pos()), nBeginForm >= 1 && nEndForm == 1, fmt.Sprintf("%d begin forms, %d end forms", nBeginForm, nEndForm))
 	// same Date() call feeds both (one call)
 	r.Check("C09.span-shape", "counterSpan/one reading of the clock", m.Pos(span.Pos()), len(callsIn(span, "(time.Time).Date")) == 1 && len(callsIn(span, "var:internal/counter.CounterTime")) == 1, "begin and end must derive from the same instant")
 	// CounterTime initialiser and no reassignment
